@@ -478,7 +478,7 @@ func HasLazyField(md protoreflect.MessageDescriptor) bool {
 
 // Corruptions of a submessage payload.
 var corruptKinds = []string{"truncated-varint", "length-overrun", "bad-wiretype", "field-zero", "stray-endgroup", "truncate-tail", "bad-utf8", "unterminated-group",
-	"packed-misaligned", "packed-truncated-varint", "overlong-varint", "bad-utf8-in-container", "group-end-mismatch", "field-number-overflow", "nested-bad-length", "varint-overflow-bits", "packed-varint-overflow-bits"}
+	"packed-misaligned", "packed-truncated-varint", "overlong-varint", "bad-utf8-in-container", "group-end-mismatch", "field-number-overflow", "nested-bad-length", "varint-overflow-bits", "packed-varint-overflow-bits", "tag-number-wraps-32-bits", "tag-number-wraps-32-bits"}
 
 // findField returns the first field of md that satisfies ok.
 func findField(md protoreflect.MessageDescriptor, ok func(protoreflect.FieldDescriptor) bool) protoreflect.FieldDescriptor {
@@ -529,6 +529,30 @@ func Corrupt(r *sim.Rng, m *WMsg) (kind string, inLazy bool, ok bool) {
 	}
 	c := cands[r.Intn(len(cands))]
 	kind = corruptKinds[r.Intn(len(corruptKinds))]
+	if kind == "tag-number-wraps-32-bits" {
+		// a tag whose field number does not fit in 32 bits but whose low 32 bits are the number of a declared
+		// field (or another valid number): invalid everywhere; placed at the top level half of the time, and
+		// otherwise in the chosen nested message, lazy or not
+		wrap := func(md protoreflect.MessageDescriptor) []byte {
+			n := uint64(1 + r.Intn(40))
+			if fd := findField(md, func(fd protoreflect.FieldDescriptor) bool {
+				return !fd.IsList() && !fd.IsMap() && (fd.Kind() == protoreflect.Int32Kind || fd.Kind() == protoreflect.Int64Kind || fd.Kind() == protoreflect.Uint32Kind || fd.Kind() == protoreflect.BoolKind)
+			}); fd != nil && r.Chance(2, 3) {
+				n = uint64(fd.Number())
+			}
+			b := protowire.AppendVarint(nil, (uint64(1+r.Intn(3))<<32|n)<<3|uint64(protowire.VarintType))
+			return protowire.AppendVarint(b, uint64(r.Intn(100)))
+		}
+		if r.Bool() {
+			pos := r.Intn(len(m.Fields) + 1)
+			m.Fields = append(m.Fields[:pos:pos], append([]*WNode{{Raw: wrap(m.MD)}}, m.Fields[pos:]...)...)
+			return kind, false, true
+		}
+		payload := append(c.nd.Sub.Encode(), wrap(c.nd.Sub.MD)...)
+		c.nd.Sub = nil
+		c.nd.Bytes = payload
+		return kind, c.lazy, true
+	}
 	payload := c.nd.Sub.Encode()
 	switch kind {
 	case "truncated-varint":
